@@ -222,6 +222,7 @@ class Sim(object):
                         self.line.peer = orig_peer
                 rec['tid'] = getattr(req, 'transaction_id', None)
                 rec['elapsed'] = self.clock.t - t0
+                rec['t_start'], rec['t_end'] = t0, self.clock.t
                 rec['ops'] = self.line.ops - ops0
                 rec['writes'] = list(self.frames_written.get(i, []))
                 out.append(rec)
